@@ -257,6 +257,9 @@ def main():
   nskel = len(items) - nwit
   for i in range(nrand):
     items.append((len(items), progen.random_program(a.seed * 1000003 + i, size=2 + (i % 5), avoid=avoid), 6, 32))
+  # an extra block: comprehensions whose target re-uses a variable read in their own iterable (family 'compshadow')
+  for i in range(nrand // 5):
+    items.append((len(items), progen.random_program(a.seed * 5000011 + i, size=2 + (i % 4), avoid=avoid, features=('compshadow',)), 6, 32))
   runs = checked = dead = nontrivial = errors = 0
   best, counts, cov = {}, {}, {}
   seen, samples = set(), []
